@@ -743,6 +743,7 @@ func main() {
 	tier := flag.String("tier", "quick", "")
 	out := flag.String("out", "", "")
 	rounds := flag.Int("rounds", 0, "")
+	roundSeed := flag.Int64("roundseed", 0, "replay exactly the round with this seed")
 	flag.Parse()
 	if *mode == "c10child" {
 		c10child(*seed)
@@ -757,6 +758,19 @@ func main() {
 		R = *rounds
 	}
 	self, _ := os.Executable()
+	if *roundSeed != 0 {
+		rng := rand.New(rand.NewSource(*roundSeed))
+		switch *mode {
+		case "c06":
+			roundC06(rng, rep, 0, *roundSeed)
+		case "c15":
+			roundC15(rng, rep, 0, *roundSeed)
+		case "c10":
+			roundC10(self, rep, 0, *roundSeed)
+		}
+		rep.Rounds = 1
+		R = 0
+	}
 	if *mode == "c10" {
 		// independent child processes: four at a time
 		var mu sync.Mutex
